@@ -284,6 +284,41 @@ func (s *WSim) Directed() {
 	s.OpRemoveSpent(a)
 }
 
+// DirectedUnknownMint: a wallet that has never seen mint 0 receives a SIG_ALL P2PK token of that
+// mint with swap to its trusted mint (the path on which outputs for a keyset the wallet has not
+// stored are made). The wallet is created for the occasion and closed afterwards.
+func (s *WSim) DirectedUnknownMint() {
+	if len(s.W.Mints) < 2 {
+		return
+	}
+	m0 := s.W.Mints[0].URL
+	var snd *WalletNode
+	for _, wn := range s.W.Wallets {
+		if wn.W != nil && wn.DefaultURL == m0 {
+			snd = wn
+			break
+		}
+	}
+	if snd == nil {
+		return
+	}
+	n := len(s.W.Wallets)
+	fresh, err := s.W.AddWallet(fmt.Sprintf("fresh%d", s.NOps), 1)
+	if err != nil {
+		return
+	}
+	s.W.Wallets = s.W.Wallets[:n] // not part of the random operation mix
+	defer fresh.Close()
+	if s.OpFund(snd, 100, m0) != nil {
+		return
+	}
+	for _, amount := range []uint64{40, 41} {
+		if ht, err := s.OpSendP2PKFlag(snd, fresh, amount, m0, false, true); err == nil && ht != nil {
+			s.OpReceive(fresh, ht, true)
+		}
+	}
+}
+
 // OpMelt: the wallet pays an external invoice of sat through mint url with the given Lightning plan.
 func (s *WSim) OpMelt(wn *WalletNode, sat uint64, url string, plan lnmodel.PayPlan) (*MeltRec, error) {
 	inv := s.W.LN.NewExternalInvoice(sat * 1000)
